@@ -31,6 +31,8 @@ int fv_bol_needed = 0, fv_has_lineno = 0, fv_bufsize = 16384, fv_default_rule = 
 long fv_last_leng = 0, fv_cur_prefix = 0; int fv_more_set = 0;
 static int *fv_readerr; static int fv_nreaderr;           /* read call indices that fail */
 static int *fv_eintr; static int fv_neintr;               /* read call indices interrupted (EINTR) */
+static int *fv_readerr1; static int fv_nreaderr1;         /* read call indices that fail once (EIO); the source is at its end afterwards */
+static int fv_src_dead[FV_MAXSRC]; static long fv_dead_reads = 0;   /* reads that came after such a failure, on the same stream */
 static long fv_alloc_fail_at = -1, fv_alloc_count = 0;    /* k-th allocation request fails */
 static long fv_live = 0, fv_bad_free = 0, fv_faults_fired = 0;
 
@@ -173,6 +175,10 @@ static void fv_load(const char *path) {
             char *tok; int c = 0; fv_readerr = (int *) malloc(sizeof(int) * (strlen(p) + 1));
             for (tok = strtok(p + 8, " \t\r\n"); tok; tok = strtok(NULL, " \t\r\n")) fv_readerr[c++] = atoi(tok);
             fv_nreaderr = c;
+        } else if (!strncmp(p, "readerr1 ", 9)) {
+            char *tok; int c = 0; fv_readerr1 = (int *) malloc(sizeof(int) * (strlen(p) + 1));
+            for (tok = strtok(p + 9, " \t\r\n"); tok; tok = strtok(NULL, " \t\r\n")) fv_readerr1[c++] = atoi(tok);
+            fv_nreaderr1 = c;
         } else if (!strncmp(p, "eintr ", 6)) {
             char *tok; int c = 0; fv_eintr = (int *) malloc(sizeof(int) * (strlen(p) + 1));
             for (tok = strtok(p + 6, " \t\r\n"); tok; tok = strtok(NULL, " \t\r\n")) fv_eintr[c++] = atoi(tok);
@@ -271,6 +277,9 @@ static ssize_t fv_cookie_read(void *cookie, char *buf, size_t size) {
     /* a failed device stays failed: every call from the listed index on reports EIO */
     for (k = 0; k < fv_nreaderr; k++) if (fv_readerr[k] <= call) { fv_faults_fired++; errno = EIO; return -1; }
     for (k = 0; k < fv_neintr; k++) if (fv_eintr[k] == call) { fv_faults_fired++; errno = EINTR; return -1; }
+    /* a failure that does not repeat: this call reports EIO, later ones find the source at its end */
+    for (k = 0; k < fv_nreaderr1; k++) if (fv_readerr1[k] == call) { fv_faults_fired++; fv_src_dead[id] = 1; errno = EIO; return -1; }
+    if (fv_src_dead[id]) { fv_dead_reads++; return 0; }
     left = fv_srclen[id] - fv_off[id];
     want = fv_nsched ? fv_sched[fv_schedpos++ % fv_nsched] : (long) size;
     if (want < 1) want = 1;
@@ -295,7 +304,7 @@ static FILE *fv_file_of(long id) {
     return fv_files[id];
 }
 static void fv_rewind(long id) {
-    fv_off[id] = 0;
+    fv_off[id] = 0; fv_src_dead[id] = 0;
 #ifdef FV_STDIO
     if (fv_files[id]) { fclose(fv_files[id]); fv_files[id] = NULL; }
 #endif
@@ -420,8 +429,8 @@ static void fv_buffer_op(int op, long a, long b FV_DEF_LAST) {
 }
 
 static void fv_stats(void) {
-    fprintf(stderr, "stats reads=%ld bytes=%ld allocs=%ld live=%ld badfree=%ld reallocs=%ld allocfailed=%ld faultsfired=%ld\n", fv_read_calls, fv_read_bytes,
-            fv_alloc_count, fv_live, fv_bad_free, fv_realloc_count, fv_alloc_failed, fv_faults_fired);
+    fprintf(stderr, "stats reads=%ld bytes=%ld allocs=%ld live=%ld badfree=%ld reallocs=%ld allocfailed=%ld faultsfired=%ld deadreads=%ld\n", fv_read_calls, fv_read_bytes,
+            fv_alloc_count, fv_live, fv_bad_free, fv_realloc_count, fv_alloc_failed, fv_faults_fired, fv_dead_reads);
 }
 
 int main(int argc, char **argv) {
